@@ -17,6 +17,7 @@ def gen(thorough=False):
     res = []
     for rc in (1, 2, 3, 4, 5, 6):
         res.append(vlib.generate(SPEC, "MC_SixelQueue", f"Gen_SixelQueue_{rc}.cfg", os.path.join(vlib.GEN, f"sixel_sched_{rc}.ndjson")))
+    res.append(vlib.generate(SPEC, "Gen_SixelGeo", "Gen_SixelGeo.cfg", os.path.join(vlib.GEN, "sixel_geo.ndjson")))
     res.append(vlib.generate(SPEC, "MC_SixelDecoder", "Gen_SixelDecoder.cfg", os.path.join(vlib.GEN, "sixel_payloads.ndjson"), workers=4))
     if thorough:
         for rc in (2, 4):
@@ -35,7 +36,7 @@ def run():
     g = gen(thorough)
     dec = os.path.join(c.workdir, "dec.ndjson")
     que = os.path.join(c.workdir, "queue.ndjson")
-    scheds = [os.path.join(vlib.GEN, f"sixel_sched_{rc}.ndjson") for rc in (1, 2, 3, 4, 5, 6)]
+    scheds = [os.path.join(vlib.GEN, f"sixel_sched_{rc}.ndjson") for rc in (1, 2, 3, 4, 5, 6)] + [os.path.join(vlib.GEN, "sixel_geo.ndjson")]
     if thorough:
         scheds += [os.path.join(vlib.GEN, f"sixel_sched_{rc}_k4.ndjson") for rc in (2, 4)]
     vlib.drive(["c14", "--seed", c.seed, "--tier", c.tier, "--out-dec", dec, "--out-queue", que, "--gen-dec", os.path.join(vlib.GEN, "sixel_payloads.ndjson"),
@@ -51,7 +52,7 @@ def run():
     c.extra["distinct_nontrivial"] = c.extra["decoder_payloads"] + c.extra["schedules"]
     c.rule = ("decoder: every payload of <= 4 tokens over the sixel alphabet exported by TLC (MC_SixelDecoder checks <= 5) plus seeded longer payloads, decoded by the real "
               "Sixel::parse_from, judged Rectangular and compared with SixelDecoder.tla; queue: every maximal behaviour of SixelQueue.tla (K=3 images, <= 3 polls, 4 rectangle "
-              "configurations, plus K=4 images, <= 2 polls for the two redraw-in-place configurations; K=4, <= 4 polls in the thorough tier) enacted against the real Buffer through the gate hook (Submit = DCS through the ANSI parser, Finish = release ticket and "
+              "configurations, plus K=4 images, <= 2 polls for the two redraw-in-place configurations; K=4, <= 4 polls in the thorough tier; plus every ordered pair of rectangles of a 3x3 cell grid and every ordered triple of a 2x2 grid with the plain schedule - the shadow rule as a relation on rectangles) enacted against the real Buffer through the gate hook (Submit = DCS through the ANSI parser, Finish = release ticket and "
               "wait for the JoinHandle, Poll = update_sixel_threads under a watchdog); after every action the observed queue length and images are judged (arrival order, no loss, "
               "no duplicate, shadow rule, poll never blocks). distinct_nontrivial = payloads + schedules, all distinct by construction.")
     c.assumptions = ["thread completion order is controlled by the cfg(icy_engine_verif) gate at the start of Sixel::parse_from; real scheduler interleavings inside a decode are not explored",
